@@ -24,6 +24,7 @@ import (
 	"sync"
 	"syscall"
 	"time"
+	"unsafe"
 )
 
 // newServer wrap listener into server, quit will be invoked when server exit.
@@ -65,6 +66,7 @@ func (s *server) Close(ctx context.Context) error {
 
 	for {
 		activeConn := 0
+		vp(vpSrvClose, unsafe.Pointer(s), 0, 0)
 		s.connections.Range(func(key, value interface{}) bool {
 			conn, ok := value.(gracefulExit)
 			if !ok || conn.isIdle() {
@@ -168,10 +170,12 @@ func (s *server) onAccept(conn Conn) {
 		return
 	}
 	fd := conn.Fd()
+	vp(vpSrvStore, unsafe.Pointer(s), int64(fd), 0)
 	nconn.AddCloseCallback(func(connection Connection) error {
 		s.connections.Delete(fd)
 		return nil
 	})
+	vp(vpSrvStore, unsafe.Pointer(s), int64(fd), 1)
 	s.connections.Store(fd, nconn)
 
 	// trigger onConnect asynchronously
